@@ -427,6 +427,12 @@ func (e *Engine) exec(st *State, instr ssa.Instruction) ([]*State, bool) {
 		e.set(st, in, e.get(st, in.X))
 		e.advance(st)
 	case *ssa.Convert:
+		// string([]byte) of a symbolic-length slice: one state per feasible length
+		if sv, ok := e.get(st, in.X).(SliceV); ok && sv.LenT != nil {
+			if _, isReg := st.top().regs[in.X]; isReg {
+				return e.concretizeSliceLen(st, in.X, sv)
+			}
+		}
 		e.set(st, in, e.convert(st, in))
 		e.advance(st)
 	case *ssa.MakeClosure:
